@@ -2,7 +2,7 @@
    Property theorems only; each closed with [exact] and followed by
    Print Assumptions. *)
 From Coq Require Import List NArith.
-From HV Require Import Base.Res Base.Str Model.Parse Proofs.ParseProofs Proofs.ParseRefine.
+From HV Require Import Base.Res Base.Str Model.Parse Proofs.ParseProofs Proofs.ParseRefine Proofs.ParsePrint.
 Import ListNotations.
 
 (* Constructing an annotation object from any text never raises. *)
@@ -44,14 +44,20 @@ Theorem C02_token_content : forall s : str,
 Proof. exact split_content. Qed.
 Print Assumptions C02_token_content.
 
-(* Print / re-parse equality (and, redundantly, every clause above) (one tag per maximal trimmed run with exact spans,
-   nesting = parenthesis nesting with group spans, unbalanced => empty tree,
-   print/re-parse equality), exhaustively over the delimiter alphabet up to
-   length 7 -- the bound the property itself names.  Only the print/re-parse
-   clause still rests on this bounded theorem. *)
+(* Printing the tree in original form and re-parsing yields an equal tree
+   (same nesting, same tag texts) -- for EVERY text. *)
+Theorem C02_print_reparse : forall s : str, forall f, hedstring_init s = Ok f ->
+  exists f', hedstring_init (print_forest s f) = Ok f' /\
+             map (shape_of (print_forest s f)) f' = map (shape_of s) f.
+Proof. exact init_print_reparse. Qed.
+Print Assumptions C02_print_reparse.
+
+(* Independent kernel-evaluated cross-check of all clauses at once, exhaustive
+   over the delimiter alphabet up to length 6 (redundant with the unbounded
+   theorems above; kept as a sanity net for the model definitions). *)
 Theorem C02_spec_bounded : forall s : str,
-  length s <= 7 -> Forall (fun c => In c sigma6) s -> spec_ok s = true.
-Proof. exact (check_upto_sound 7 check_upto_7). Qed.
+  length s <= 6 -> Forall (fun c => In c sigma6) s -> spec_ok s = true.
+Proof. exact (check_upto_sound 6 check_upto_6). Qed.
 Print Assumptions C02_spec_bounded.
 
 (* Validation reports a parenthesis mismatch exactly for unbalanced text
